@@ -913,6 +913,18 @@ where
     for _ in 0..n {
         seal_lib::<B, P>(rec, st, &km.seal, &claims, &[], &[], (false, false), None);
     }
+    // the same on freshly started threads, one after the other, in the same scenario: whatever per-thread or per-process state a
+    // nonce generator keeps, no value may come back (thread-local counters restart, process-wide prefixes are shared)
+    let m = if cfg.thorough { 500 } else { 60 };
+    for _ in 0..3 {
+        std::thread::scope(|sc| {
+            sc.spawn(|| {
+                for _ in 0..m {
+                    seal_lib::<B, P>(rec, st, &km.seal, &claims, &[], &[], (false, false), None);
+                }
+            });
+        });
+    }
 }
 
 pub fn run(rec: &mut Recorder, cfg: &Cfg) -> Stats {
